@@ -511,7 +511,7 @@ func (inst *InstCall) Operands() []*value.Value {
 	ops := make([]*value.Value, 0, 1+len(inst.Args))
 	ops = append(ops, &inst.Callee)
 	for i := range inst.Args {
-		ops = append(ops, &inst.Args[i])
+		ops = append(ops, argOperand(&inst.Args[i]))
 	}
 	for _, bundle := range inst.OperandBundles {
 		if bundle == nil {
@@ -737,7 +737,7 @@ func (inst *InstCatchPad) Operands() []*value.Value {
 	ops := make([]*value.Value, 0, 1+len(inst.Args))
 	ops = append(ops, &inst.CatchSwitch)
 	for i := range inst.Args {
-		ops = append(ops, &inst.Args[i])
+		ops = append(ops, argOperand(&inst.Args[i]))
 	}
 	return ops
 }
@@ -806,7 +806,7 @@ func (inst *InstCleanupPad) Operands() []*value.Value {
 	ops := make([]*value.Value, 0, 1+len(inst.Args))
 	ops = append(ops, &inst.ParentPad)
 	for i := range inst.Args {
-		ops = append(ops, &inst.Args[i])
+		ops = append(ops, argOperand(&inst.Args[i]))
 	}
 	return ops
 }
